@@ -98,6 +98,12 @@ prop("C14", stems=["Ref", "SO3Quat", "SO3Euler", "Rdd2", "Loglinear"], props=["P
      technique="Coq proof (Shepperd theorem for all proper rotation matrices, congruence bridges) over a model regenerated from source; numeric search for the construction of the matrices",
      explanation="set-point quaternions for all rotation matrices / Euler angles")
 
+prop("C12", stems=["Sim", "SO3Mrp"], props=["Props/C12.v"], falsify="falsify_C12", level="other", budget={"quick": 200, "thorough": 3000},
+     level_text="Convergence of a nonlinear, RK4-discretised, rate-limited filter from a box of initial conditions is NOT something this proof technique can establish here; the check therefore combines (a) kernel-checked component theorems on the regenerated sensor models: the gyro reads rate + bias, the accelerometer reading is C_nb^T(-g e3) with magnitude g for every attitude, the magnetometer reading rotates with the true attitude (so its magnitude is attitude-independent) -- the defect that made every correction be rejected (SO3Dcm.from_Mrp) is what these theorems pin; with C11's step contracts and C20's node-gating theorems; and (b) exploration of the real closed loop: launch.launch_sim, noise off, 20 simulated seconds, with and without initialisation, random true attitudes/biases/inclination/declination and two rate settings, checking no exception/NaN, attitude error < 0.03 rad after 10 s, all three bias errors < 0.01 rad/s after 15 s, reading magnitudes and acceptance of corrections; plus the measurement functions against numpy references with declination and inclination both non-zero.",
+     level_note=GEN_NOTE + "The closed-loop part is a bounded random exploration (2 runs quick, ~40 thorough), not a proof.",
+     technique="Coq component theorems on the regenerated sensor models + closed-loop simulation of the real code (exploration)",
+     explanation="Convergence is explored by simulation, not proved: component theorems (sensor models rotate with the true attitude and have the configured magnitudes) are kernel-checked on the regenerated model; the closed loop of the real simulator + estimator is run noise-free from random initial conditions and its error envelopes are checked.")
+
 prop("C16", stems=["Quadrotor"], props=["Props/C16.v"], falsify="falsify_C16",
      level_text="Kernel-checked theorems over the regenerated real-number model of quadrotor.derive_model(): q.qdot=0, quaternion and position kinematics, hover equilibrium, free-fall accelerometer, rotor-sum wrench (Euler and Newton equations), motor first-order law, translation and yaw equivariance, for ALL states, inputs and parameter vectors (parameters are symbolic). Not proved: the exponential closed-form motor response (only the ODE right-hand side), drag-on branch of the force sum.",
      level_note=GEN_NOTE + "Numeric search on the real functions (harness/falsify_C16.py) supports replay generation only.",
